@@ -537,7 +537,21 @@ def _l3(ctx, R, CM):
                 if norm(n.elt) == norm(g.target) and any(isinstance(c, ast.Compare) and len(c.ops) == 1 and isinstance(c.ops[0], ast.In)
                                                        and norm(c.left) == norm(g.target) and memoish(c.comparators[0]) for c in g.ifs):
                     ok = True
+            # set algebra: <definition>._references & <set of clones>   (either order, operator or method)
+            sides = None
+            if isinstance(n, ast.BinOp) and isinstance(n.op, ast.BitAnd):
+                sides = (n.left, n.right)
+            elif isinstance(n, ast.Call) and isinstance(n.func, ast.Attribute) and n.func.attr == "intersection" and len(n.args) == 1:
+                sides = (n.func.value, n.args[0])
+            if sides is not None and any(isinstance(a_, ast.Attribute) and a_.attr in ("_references", "references") and memoish(b_) for a_, b_ in (sides, sides[::-1])):
+                ok = True
         assigns = [n for n in walk_local(f.node) if isinstance(n, ast.Assign) and isinstance(n.targets[0], ast.Attribute) and n.targets[0].attr == "_references"]
+        assigns += [n for n in walk_local(f.node) if (isinstance(n, ast.AugAssign) and isinstance(n.op, ast.BitAnd) and isinstance(n.target, ast.Attribute)
+                                                      and n.target.attr == "_references" and memoish(n.value))
+                    or (isinstance(n, ast.Call) and isinstance(n.func, ast.Attribute) and n.func.attr == "intersection_update" and n.args and memoish(n.args[0])
+                        and isinstance(n.func.value, ast.Attribute) and n.func.value.attr == "_references")]
+        if any(isinstance(n, (ast.AugAssign, ast.Call)) for n in assigns):
+            ok = True
         if ok and assigns:
             R.ok("L3b", q, f.loc())
         else:
